@@ -626,9 +626,14 @@ def i_SLEEP(ins, fmap):
 
 @__pc
 def i_TRAPA(ins, fmap):
-    _push_(fmap,fmap(pc))
-    _push_(fmap,fmap(SR))
-    fmap[pc] = ext(ins.operands[0])
+    # SR then the return address (next instruction) are saved on the stack
+    # and execution continues at the vector read from VBR+imm*4
+    imm = ins.operands[0]
+    _push_(fmap, fmap(SR))
+    _push_(fmap, fmap(pc))
+    target = fmap(__mem(VBR + (imm.zeroextend(32) * 4), 32))
+    fmap[pc] = target
+    fmap[npc] = target + ins.length
 
 
 @__pc
